@@ -1277,3 +1277,62 @@ m('c18-scale-reciprocal-twin', 'C18', 'neutral', WH, ISR, "w = walsh_hadamard_tr
 m('c18-forward-unscaled', 'C18', 'break', WH, SR,
   "return (walsh_hadamard_transform(w * rademacher) / jnp.sqrt(d), jnp.array(x.shape))",
   "return (walsh_hadamard_transform(w * rademacher), jnp.array(x.shape))", expect='R-SIB.rotation')
+
+# ---- third batch: entries derived from round-2 seeded changes ----
+SFL = 'fedjax/training/structured_flags.py'
+m('seed2-c01-sgd-drops-nesterov', 'C01', 'break', OPT, 'sgd',
+  "optax.sgd(learning_rate=learning_rate, momentum=momentum, nesterov=nesterov)", "optax.sgd(learning_rate=learning_rate, momentum=momentum)",
+  mode='expr', expect='R-FORWARD.unused')
+m('seed2-c01-del-param-twin', 'C09', 'neutral', EXP, 'ModelFullEvaluationFn.__call__', "del round_num", "del round_num\npass")
+m('seed2-c02-padding-loses-dtype', 'C02', 'break', FEC, '_blockify',
+  "padding_batch = jax.tree_util.tree_map(jnp.zeros_like, batch_template)",
+  "padding_batch = jax.tree_util.tree_map(lambda x: jnp.zeros(jnp.shape(x)), batch_template)", expect='R-MASK.pad-dtype')
+m('seed2-c02-padding-dtype-twin', 'C02', 'neutral', FEC, '_blockify',
+  "padding_batch = jax.tree_util.tree_map(jnp.zeros_like, batch_template)",
+  "padding_batch = jax.tree_util.tree_map(lambda x: jnp.zeros(jnp.shape(x), dtype=x.dtype), batch_template)")
+multi('seed2-c02-template-hoisted', 'C02', 'break', [
+    dict(file=FEC, func='_blockify', old="clients.sort(key=lambda x: len(x[1]), reverse=True)",
+         new="clients.sort(key=lambda x: len(x[1]), reverse=True)\n_, _, client_input_template = clients[0]"),
+], expect='R-EMPTY')
+m('seed2-c15-stale-cursor', 'C15', 'break', CD, 'padded_batch_client_datasets',
+  "if buf:\n  start = hparams.batch_size - buf_size\n  buf.append(slice_examples(examples, slice(start)))\n  yield attach_mask(preprocessor(concat_examples(buf)), full_mask)\n  buf.clear()\n  buf_size = 0\nelse:\n  start = 0",
+  "if buf:\n  start = hparams.batch_size - buf_size\n  buf.append(slice_examples(examples, slice(start)))\n  yield attach_mask(preprocessor(concat_examples(buf)), full_mask)\n  buf.clear()\n  buf_size = 0",
+  expect='R-CONSERVE.cursor')
+m('seed2-c15-concat-skips-empty', 'C15', 'break', CD, 'concat_examples', "combined[k].append(v)", "if len(v):\n  combined[k].append(v)",
+  expect='R-CONSERVE.concat')
+m('seed2-c04-index-int16', 'C04', 'break', CD, 'ShuffleRepeatBatchView.__iter__',
+  "indices = np.zeros((self._batch_size,), dtype=np.int32)", "indices = np.zeros((self._batch_size,), dtype=np.int16)", expect='R-PERM.dtype')
+m('seed2-c04-index-int64-twin', 'C04', 'neutral', CD, 'ShuffleRepeatBatchView.__iter__',
+  "indices = np.zeros((self._batch_size,), dtype=np.int32)", "indices = np.zeros((self._batch_size,), dtype=np.int64)")
+m('seed2-c04-flag-or-none', 'C04', 'break', SFL, 'ShuffleRepeatBatchHParamsFlags.get',
+  "self._get_flag('num_steps')", "self._get_flag('num_steps') or None", mode='expr', expect='R-FORWARD.flags')
+m('seed2-c04-replace-filters-none', ['C04', 'C10'], 'break', DC, 'dataclass.replace',
+  "return dataclasses.replace(self, **updates)",
+  "updates = {k: v for k, v in updates.items() if v is not None}\nreturn dataclasses.replace(self, **updates)", expect='R-FORWARD.kwargs')
+m('seed2-c06-agnostic-wires-regularizer', 'C06', 'break', AGN, 'agnostic_federated_averaging',
+  "create_domain_metrics_for_each_client(per_example_loss, num_domains)", "create_domain_metrics_for_each_client(per_example_loss, num_domains, regularizer)",
+  mode='expr', expect='R-REG.wire')
+multi('seed2-c06-regularizer-before-mean', 'C06', 'break', [
+    dict(file=MOD, func='grad.scalar_loss', old="if regularizer is not None:\n  loss += regularizer(params)", new="pass"),
+    dict(file=MOD, func='grad.scalar_loss', old="batch_loss = per_example_loss(params, batch_example, rng)",
+         new="batch_loss = per_example_loss(params, batch_example, rng)\nif regularizer is not None:\n  batch_loss += regularizer(params)"),
+], expect='R-REG.reduce')
+m('seed2-c06-evaluator-without-regularizer', 'C06', 'break', HYP, 'hyp_cluster',
+  "models.AverageLossEvaluator(per_example_loss, regularizer)", "models.AverageLossEvaluator(per_example_loss)", mode='expr',
+  expect='R-FORWARD.same-name')
+m('seed2-c09-load-device-get', ['C09', 'C16'], 'break', SER, 'load_state', "return pickle.load(f)", "return jax.device_get(pickle.load(f))",
+  expect={'C09': 'R-RESUME.pickle-raw', 'C16': 'R-PAIR.pickle-raw'})
+m('seed2-c09-load-temp-twin', ['C09', 'C16'], 'neutral', SER, 'load_state', "return pickle.load(f)", "state = pickle.load(f)\nreturn state")
+m('seed2-c09-final-eval-append', 'C09', 'break', EXP, 'run_federated_experiment', "tf.io.gfile.GFile(metrics_path, 'w')",
+  "tf.io.gfile.GFile(metrics_path, 'a')", mode='expr', expect='R-RESUME.mode')
+m('seed2-c09-sampler-keeps-state', ['C09', 'C13'], 'break', SAMP, 'UniformGetClientSampler.sample',
+  "random_state = get_pseudo_random_state(self._seed, self._round_num)",
+  "if getattr(self, '_rs', None) is None:\n  self._rs = get_pseudo_random_state(self._seed, self._round_num)\nrandom_state = self._rs", expect='R-')
+m('seed2-c10-state-generator', 'C10', 'break', APFL, 'adaptive_personalized_federated_learning.server_update',
+  "return ServerState(params, opt_state, client_states)", "return ServerState(params, opt_state, iter(client_states.items()))",
+  expect='R-STATE.plain')
+m('seed2-c05-finalize-raw-div', ['C05', 'C06'], 'break', MOD, '_finalize_average_loss',
+  "util.safe_div(accum_loss, num_examples)", "accum_loss / num_examples", mode='expr', expect='R-DIV')
+m('seed2-c01-steps-per-epoch', ['C01', 'C04'], 'break', CD, 'ShuffleRepeatBatchView.__init__',
+  "self._data_size * hparams.num_epochs // hparams.batch_size", "self._data_size // hparams.batch_size * hparams.num_epochs", mode='expr',
+  expect='R-SIZE.steps')
